@@ -41,7 +41,7 @@ macro_rules! user_grammar {
     ($m:ident, $ty:ident, $tr:ident, $trm:ident) => {
         mod $m {
             use super::Ev;
-            use crate::$trm::{A, B, Tog, Semi, Q, R, S, T, U, Bang, $tr};
+            use crate::$trm::{A, B, Tog, Semi, Q, R, S, T, U, Bang, ASemi, Quad, Item, Start, $tr};
             use parol_runtime::{Result, Token};
             #[derive(Default)]
             pub struct $ty<'t> { pub events: Vec<Ev>, _p: std::marker::PhantomData<&'t ()> }
@@ -50,6 +50,10 @@ macro_rules! user_grammar {
                 fn b(&mut self, x: &B<'t>) -> Result<()> { self.events.push(Ev { kind: 'b', start: x.b.location.start as usize, end: x.b.location.end as usize }); Ok(()) }
                 fn tog(&mut self, x: &Tog<'t>) -> Result<()> { self.events.push(Ev { kind: '#', start: x.tog.location.start as usize, end: x.tog.location.end as usize }); Ok(()) }
                 fn semi(&mut self, x: &Semi<'t>) -> Result<()> { self.events.push(Ev { kind: ';', start: x.semi.location.start as usize, end: x.semi.location.end as usize }); Ok(()) }
+                fn a_semi(&mut self, _x: &ASemi<'t>) -> Result<()> { self.events.push(Ev { kind: 'P', start: 0, end: 0 }); Ok(()) }
+                fn quad(&mut self, _x: &Quad<'t>) -> Result<()> { self.events.push(Ev { kind: 'D', start: 0, end: 0 }); Ok(()) }
+                fn item(&mut self, _x: &Item<'t>) -> Result<()> { self.events.push(Ev { kind: 'I', start: 0, end: 0 }); Ok(()) }
+                fn start(&mut self, _x: &Start<'t>) -> Result<()> { self.events.push(Ev { kind: 'Z', start: 0, end: 0 }); Ok(()) }
                 fn bang(&mut self, x: &Bang<'t>) -> Result<()> { self.events.push(Ev { kind: '!', start: x.bang.location.start as usize, end: x.bang.location.end as usize }); Ok(()) }
                 fn q(&mut self, x: &Q<'t>) -> Result<()> { self.events.push(Ev { kind: 'q', start: x.q.location.start as usize, end: x.q.location.end as usize }); Ok(()) }
                 fn r(&mut self, x: &R<'t>) -> Result<()> { self.events.push(Ev { kind: 'r', start: x.r.location.start as usize, end: x.r.location.end as usize }); Ok(()) }
@@ -72,11 +76,13 @@ macro_rules! user_grammar2 {
     ($m:ident, $ty:ident, $tr:ident, $trm:ident) => {
         mod $m {
             use super::Ev;
-            use crate::$trm::{Num, Plus, Open, Close, $tr};
+            use crate::$trm::{Num, Plus, Open, Close, E, T, $tr};
             use parol_runtime::{Result, Token};
             #[derive(Default)]
             pub struct $ty<'t> { pub events: Vec<Ev>, _p: std::marker::PhantomData<&'t ()> }
             impl<'t> $tr<'t> for $ty<'t> {
+                fn e(&mut self, _x: &E<'t>) -> Result<()> { self.events.push(Ev { kind: 'E', start: 0, end: 0 }); Ok(()) }
+                fn t(&mut self, _x: &T<'t>) -> Result<()> { self.events.push(Ev { kind: 'T', start: 0, end: 0 }); Ok(()) }
                 fn num(&mut self, x: &Num<'t>) -> Result<()> { self.events.push(Ev { kind: 'n', start: x.num.location.start as usize, end: x.num.location.end as usize }); Ok(()) }
                 fn plus(&mut self, x: &Plus<'t>) -> Result<()> { self.events.push(Ev { kind: '+', start: x.plus.location.start as usize, end: x.plus.location.end as usize }); Ok(()) }
                 fn open(&mut self, x: &Open<'t>) -> Result<()> { self.events.push(Ev { kind: '(', start: x.open.location.start as usize, end: x.open.location.end as usize }); Ok(()) }
@@ -186,10 +192,10 @@ fn run(v: usize, input: &str) -> Run {
     match r { Ok((ok, leaves, events)) => Run { ok, leaves, events, panicked: false, depth_err: false }, Err(_) => Run { ok: false, leaves: vec![], events: vec![], panicked: true, depth_err: false } }
 }
 
-const CLAUSES: [(&str, &str); 11] = [
-    ("C08 C14 C16 C17 C19 C20", "parse does not panic"),
-    ("C08 C14 C16 C17 C20", "acceptance: success iff the input is a sentence of the toy grammar (independent reference recognizer; skipped tokens do not matter)"),
-    ("C14 C16", "tree leaves are contiguous, in order, start at 0 and end at the input length"),
+const CLAUSES: [(&str, &str); 12] = [
+    ("C02 C03 C08 C14 C16 C17 C19 C20", "parse does not panic"),
+    ("C03 C08 C14 C16 C17 C20", "acceptance: success iff the input is a sentence of the toy grammar (independent reference recognizer; skipped tokens do not matter)"),
+    ("C03 C14 C16", "tree leaves are contiguous, in order, start at 0 and end at the input length"),
     ("C14 C16", "leaf texts equal the input slices of their byte ranges (texts concatenate to the input)"),
     ("C14 C16", "leaf token types and ranges equal the reference tokenization (significant, skipped, comments, unmatched gaps)"),
     ("C14", "line/column positions of scanner-produced leaves match the text"),
@@ -198,6 +204,7 @@ const CLAUSES: [(&str, &str); 11] = [
     ("C17", "every comment is passed to on_comment exactly once, in input order"),
     ("C19", "parse returns: no single parse runs longer than the watchdog limit (30 s)"),
     ("C19 C20", "depth limit: a limit that is not reached changes nothing; an exceeded limit yields the MaxParsingDepthExceeded error value (or the unlimited outcome), never a panic or another result"),
+    ("C02 C03", "every production application triggers exactly one semantic action, in post-order of the derivation tree (children before their production, left to right)"),
 ];
 /// independent recognizer of Start: { Item }; Item: a | b | # | a ; | q r s t | q u
 fn is_item_list(t: &[u16]) -> bool {
@@ -241,12 +248,28 @@ fn check(v: usize, input: &str) -> Option<usize> {
     None
 }
 fn check_events(r: &Run, want: &[RTok]) -> Option<usize> {
-    let acts: Vec<(char, usize)> = r.events.iter().filter(|e| e.kind != 'c').map(|e| (e.kind, e.start)).collect();
+    let acts: Vec<(char, usize)> = r.events.iter().filter(|e| e.kind != 'c' && !e.kind.is_ascii_uppercase()).map(|e| (e.kind, e.start)).collect();
     let want_acts: Vec<(char, usize)> = want.iter().filter(|t| !t.skip).map(|t| (match t.ty { A => 'a', B => 'b', SEMI => ';', TQ => 'q', TR => 'r', TS => 's', TT => 't', TU => 'u', BANG => '!', _ => '#' }, t.start)).collect();
     if acts != want_acts { return Some(7); }
     let cms: Vec<(usize, usize)> = r.events.iter().filter(|e| e.kind == 'c').map(|e| (e.start, e.end)).collect();
     let want_cms: Vec<(usize, usize)> = want.iter().filter(|t| t.ty == LC || t.ty == BC).map(|t| (t.start, t.end)).collect();
     if cms != want_cms { return Some(8); }
+    // post-order of the derivation tree of Start: { Item }; each item's terminals, then its own production(s), finally Start
+    let sig: Vec<u16> = want.iter().filter(|t| !t.skip).map(|t| t.ty).collect();
+    let mut post: Vec<char> = vec![];
+    let kind = |ty: u16| match ty { A => 'a', B => 'b', SEMI => ';', TQ => 'q', TR => 'r', TS => 's', TT => 't', TU => 'u', BANG => '!', _ => '#' };
+    let mut p = 0;
+    while p < sig.len() {
+        let n = match sig[p] { A if p + 1 < sig.len() && sig[p + 1] == SEMI => 2, TQ if sig[p + 1..].starts_with(&[TR]) => 4, TQ => 2, _ => 1 };
+        for k in 0..n { post.push(kind(sig[p + k])); }
+        if sig[p] == A && n == 2 { post.push('P'); }
+        if sig[p] == TQ { post.push('D'); }
+        post.push('I');
+        p += n;
+    }
+    post.push('Z');
+    let got: Vec<char> = r.events.iter().filter(|e| e.kind != 'c').map(|e| e.kind).collect();
+    if got != post { return Some(11); }
     None
 }
 
@@ -351,7 +374,7 @@ fn check2(v: usize, input: &str) -> Option<usize> {
         if !r.ok { return None; }
     }
     let kind_of = |ty: u16| match ty { NUM => 'n', PLUS => '+', OPEN => '(', _ => ')' };
-    let acts: Vec<(char, usize)> = r.events.iter().filter(|e| e.kind != 'c').map(|e| (e.kind, e.start)).collect();
+    let acts: Vec<(char, usize)> = r.events.iter().filter(|e| e.kind != 'c' && !e.kind.is_ascii_uppercase()).map(|e| (e.kind, e.start)).collect();
     let want_acts: Vec<(char, usize)> = want.iter().filter(|t| !t.skip).map(|t| (kind_of(t.ty), t.start)).collect();
     let cms: Vec<(usize, usize)> = r.events.iter().filter(|e| e.kind == 'c').map(|e| (e.start, e.end)).collect();
     let want_cms: Vec<(usize, usize)> = want.iter().filter(|t| t.ty == LC || t.ty == BC).map(|t| (t.start, t.end)).collect();
@@ -368,6 +391,16 @@ fn check2(v: usize, input: &str) -> Option<usize> {
     }
     if acts != want_acts { return Some(7); }
     if cms != want_cms { return Some(8); }
+    // post-order of the derivation tree of E: T { Plus T }; T: Num | Open E Close
+    fn po_e(t: &[u16], mut p: usize, out: &mut Vec<char>) -> usize { p = po_t(t, p, out); while p < t.len() && t[p] == PLUS { out.push('+'); p = po_t(t, p + 1, out); } out.push('E'); p }
+    fn po_t(t: &[u16], p: usize, out: &mut Vec<char>) -> usize {
+        if t[p] == NUM { out.push('n'); out.push('T'); return p + 1; }
+        out.push('('); let q = po_e(t, p + 1, out); out.push(')'); out.push('T'); q + 1
+    }
+    let mut post = vec![];
+    po_e(&sigs, 0, &mut post);
+    let got: Vec<char> = r.events.iter().filter(|e| e.kind != 'c').map(|e| e.kind).collect();
+    if got != post { return Some(11); }
     None
 }
 const PIECES2: [&str; 9] = ["n", "+", "(", ")", " ", "\n", "//c\n", "/*c*/", "?"];
@@ -376,6 +409,11 @@ fn esc(s: &str) -> String { s.chars().map(|c| format!("{}", c as u32)).collect::
 static PROGRESS: std::sync::atomic::AtomicU64 = std::sync::atomic::AtomicU64::new(0);
 static CURRENT: std::sync::Mutex<String> = std::sync::Mutex::new(String::new());
 /// a monitor thread: when one parse makes no progress for 30 s the search reports the hanging input and exits
+/// properties that speak about one parser kind only look at that kind's variants (C02, C08: LL(k); C03: LALR(1))
+fn variant_relevant(prop: &str, grammar: usize, v: usize) -> bool {
+    let lr = if grammar == 1 { v == 1 || v == 3 } else { v % 2 == 1 };
+    match prop { "C02" | "C08" => !lr, "C03" => lr, _ => true }
+}
 fn start_watchdog() {
     std::thread::spawn(|| {
         let mut last = u64::MAX; let mut since = std::time::Instant::now();
@@ -410,7 +448,7 @@ fn main() {
             // delimiter (observed defect belonging to C15, which is not claimed): such inputs are excluded
             let excluded = input.contains("*//");
             for v in 0..VARIANTS.len() {
-                if excluded { continue; }
+                if excluded || !variant_relevant(prop, 1, v) { continue; }
                 cases += 1;
                 PROGRESS.fetch_add(1, std::sync::atomic::Ordering::Relaxed);
                 if let Ok(mut c) = CURRENT.lock() { *c = format!("{{\"v\":{},\"chars\":[{}]}}", v, esc(&input)); }
@@ -426,6 +464,7 @@ fn main() {
             let input: String = p.iter().map(|i| PIECES2[*i]).collect();
             if !input.contains("*//") {
                 for v in 0..G2_VARIANTS.len() {
+                    if !variant_relevant(prop, 2, v) { continue; }
                     cases += 1;
                     PROGRESS.fetch_add(1, std::sync::atomic::Ordering::Relaxed);
                     if let Ok(mut c) = CURRENT.lock() { *c = format!("{{\"g\":2,\"v\":{},\"chars\":[{}]}}", v, esc(&input)); }
